@@ -41,6 +41,15 @@ NOTES.update({
  "C17r8B": "not covered: as C17r6A - the button jump needs zero playable seats before the move, where C17 makes no claim about the seat the button goes to",
  "C20r8A": "caught by the thorough tier of C20 (C20/no-fixpoint, 7 histories in 600,000), not by the quick tier: needs registration on hold, three tables with a stale requirement, a player count not divisible by the table count and the fullest table synced first",
 })
+NOTES.update({
+ "C04r9A": "not a violation as C04/C05 are read here: on a table without any blind where at most one seat has chips left after the antes, the pre-flop round is closed without being opened. Nobody acts out of turn, and C05 itself says that no betting round is opened when fewer than two players still have chips",
+ "C04r9B": "not a violation as C04/C05 are read here: heads-up with the button all-in and the big blind level or ahead, the round is closed without asking the all-in button to pass and without the big blind's option; fewer than two players have chips, so no betting round needs to be opened (C05), and nobody acts out of turn (C04)",
+ "C09r9B": "not covered: the swallowed registration is a re-entry sent before the table has reported the player's elimination, i.e. a registration of a player who is still counted at a table; the tournament histories re-enter players after their elimination was reported",
+ "C13r9A": "caught by the thorough tier of C16 (C16/total, 1 hand in 300,000), not by the quick tier of C13: the shortcut publishes one pot instead of side pots only when the first and last seat are short of the ante by the same amount and the others' antes average exactly that amount; the totals C13 compares still add up",
+ "C19r9A": "caught by the thorough tier of C19 (C19/above-capacity, 8 histories in 300,000), not by the quick tier: needs a tournament in which nobody ever registers while the competition is pending, plus a hold during which a table is topped up and released players arrive",
+})
+for _k in ("C04r4B", "C04r6B", "C04r7A"):
+    NOTES[_k] = "still caught; its demonstration no longer fails on the current tree: it relied on player handles of a previous, bigger table surviving in a re-used game object, which the repair of D11 (9a37c80, ApplyOptions drops them) removed"
 rows = []
 for rf in sorted(glob.glob(f"{DST}/results/*.json")):
     key = os.path.basename(rf)[:-5]
